@@ -15,7 +15,7 @@ RAW = ['script', 'style']
 ANAMES = ['id', 'title', 'data-x', 'data-y', 'checked', 'hidden', 'open', 'class', 'style', 'href', 'lang']
 AVALS = ['v', '', 'two words', 'q"q', "it's", '<b>', 'a>b', 'é', '7', 'x  y', 'next >', 'a /> b', 'n > 3']
 TEXTS = ['x', 'yy', ' ', '\n', ' a b ', '&amp;', '&#65;', '&lt;tag&gt;', '<!--c-->', '<!-- c -->', 'é', 'a > b', 'x\ty', '  ',
-         '<!--\tcol1\tcol2\t-->', '<!--\n  multi\n  line\n-->']
+         '<!--\tcol1\tcol2\t-->', '<!--\n  multi\n  line\n-->', '\nx', '\n\n  y\n', '&nbsp;', '&#160;']
 
 
 def gen_tree(rng, depth=0, maxdepth=4, budget=None):
@@ -34,6 +34,8 @@ def gen_tree(rng, depth=0, maxdepth=4, budget=None):
     if rng.random() < 0.08:
         return [name, gen_attrs(rng), True, []]
     blocks = []
+    if name in PRE and rng.random() < 0.35:
+        blocks.append(rng.choice(['\nx', '\n\n  y\n', '\n']))
     for _ in range(rng.randint(0, 4)):
         if depth < maxdepth and budget[0] > 0 and rng.random() < 0.5:
             blocks.append(gen_tree(rng, depth + 1, maxdepth, budget))
@@ -187,9 +189,9 @@ class C01(core.Check):
                         toks.append(['T', rng.choice(['t', ' mid ', '&amp;'])])
                 # top-level text before the first / after the last root (makes the document multi-root), edge white space included
                 if rng.random() < 0.3:
-                    toks = [['T', rng.choice(['lead ', 'x', ' lead'])]] + toks
+                    toks = [['T', rng.choice(['lead ', 'x', ' lead', '&nbsp;', '&amp; ', '<!--c-->', '&#65;'])]] + toks
                 if rng.random() < 0.4:
-                    toks.append(['T', rng.choice([' tail  ', ' ', '\n', 'end', ' end'])])
+                    toks.append(['T', rng.choice([' tail  ', ' ', '\n', 'end', ' end', '&nbsp;', ' &amp;', '<!-- c -->', '&#x41;'])])
                 # adjacent generator text tokens would merge in the source: keep them separate
                 clean = []
                 for tk in toks:
